@@ -99,3 +99,16 @@ Theorem queue_accounting ops :
   (q_abort s = false -> q_discarded s = []) /\
   (q_worker s = WExited -> q_abort s = true).
 Proof. cbn zeta. destruct (qrun_inv ops) as [A B C D E]. auto. Qed.
+
+(* abort discards: right after a stop the queue is empty, and every task posted so far has been started or discarded *)
+Theorem stop_discards_what_is_queued ops :
+  let s := qstep (qrun ops) QStop in
+  q_queue s = [] /\ forall t, In t (q_posted s) -> In t (q_started s) \/ In t (q_discarded s).
+Proof.
+  intro s. assert (E : s = qrun (ops ++ [QStop])) by (unfold s, qrun; rewrite fold_left_app; reflexivity).
+  split; [reflexivity |]. intros t H.
+  pose proof (queue_accounting (ops ++ [QStop])) as [A _]. cbv zeta in A. rewrite <- E in A.
+  rewrite A in H. apply in_app_or in H. destruct H as [H | H]; [left; exact H |].
+  apply in_app_or in H. destruct H as [H | H]; [right; exact H |].
+  assert (Q : q_queue s = []) by reflexivity. rewrite Q in H. contradiction.
+Qed.
